@@ -640,6 +640,46 @@ fn c13(p: &Prog, rec: &mut Rec, tier: u8, seed: u64, idx: usize) {
             }
         }
     }
+    // (b') the same with a preemption bound (the configuration is part of the property's quantifier): bounded DPOR keeps
+    // extra state in the path (links between schedule branches) that has to survive the checkpoint
+    if p.threads.iter().filter(|t| !t.is_empty()).count() >= 3 || idx % 4 == 0 {
+        for bound in [1usize, 2] {
+            let mut cb = cfg.clone();
+            cb.preemption_bound = Some(bound);
+            let fullb = run(p, &cb);
+            account(rec, &fullb);
+            let nb = fullb.iters;
+            if fullb.panic.is_some() || nb < 3 || nb > 400 {
+                continue;
+            }
+            let fdb = digest_paths(&fullb.paths);
+            'kloop: for interval in [1usize, 3] {
+                for k in 1..=nb {
+                    let _ = std::fs::remove_file(&file);
+                    let mut c1 = cb.clone();
+                    c1.checkpoint_file = Some(file.clone());
+                    c1.checkpoint_interval = Some(interval);
+                    c1.max_permutations = Some(k);
+                    let first = run(p, &c1);
+                    let stop = ((k + interval - 1) / interval) * interval;
+                    let exists = std::path::Path::new(&file).exists();
+                    let mut c2 = cb.clone();
+                    c2.checkpoint_file = Some(file.clone());
+                    c2.checkpoint_interval = Some(interval);
+                    let rest = run(p, &c2);
+                    rec.runs += 2;
+                    rec.iters += (first.iters + rest.iters) as u64;
+                    stops += 1;
+                    let last_boundary = if stop <= nb { stop } else { (nb / interval) * interval };
+                    let from = if exists && last_boundary >= 1 { last_boundary - 1 } else { 0 };
+                    if rest.panic.is_some() || rest.seq[..] != fullb.seq[from..] || digest_paths(&rest.paths)[..] != fdb[from..] {
+                        rec.v("checkpoint_resume", "", format!("preemption_bound={} interval={} stop request k={} (of {}): resumed run has {} iterations, expected {} = suffix of the uninterrupted bounded run from iteration {}", bound, interval, k, nb, rest.seq.len(), nb - from, from + 1));
+                        break 'kloop;
+                    }
+                }
+            }
+        }
+    }
     // (c) crash (process abort) at the start / in the middle of iteration k (0-based), resume in a fresh process
     let ks: Vec<usize> = if tier == 0 { (0..n).step_by((n / 12).max(1)).collect() } else { (0..n).collect() };
     for interval in [1usize, 3] {
